@@ -226,7 +226,7 @@ def corpus(res, part, parts):
 def plan(tier):
     if tier == "quick":
         return [{"kind": "hist", "n": 260, "depth": 3, "len": 25}] * 10 + [{"kind": "out", "n": 60, "depth": 3}] * 4 + [{"kind": "exh", "len": 2}] + [{"kind": "corpus", "part": i, "parts": 4} for i in range(4)]
-    return [{"kind": "hist", "n": 6000, "depth": 3, "len": 40}] * 32 + [{"kind": "out", "n": 1500, "depth": 4}] * 14 + [{"kind": "exh", "len": 3}] + [{"kind": "corpus", "part": i, "parts": 8} for i in range(8)]
+    return [{"kind": "hist", "n": 1500, "depth": 3, "len": 40}] * 32 + [{"kind": "out", "n": 400, "depth": 4}] * 14 + [{"kind": "exh", "len": 3}] + [{"kind": "corpus", "part": i, "parts": 8} for i in range(8)]
 
 
 def run_shard(spec, seed, res, only_bucket=None):
